@@ -83,25 +83,25 @@ Qed.
 (* ------------------------------------------------------------------ reading the ranges *)
 
 (* data's first byte is at absolute position p *)
-Definition read_one (p : N) (data : bytes) (r : rng) : bytes :=
+Definition read_one {A} (p : N) (data : list A) (r : rng) : list A :=
   slice data (N.to_nat (fst r - p)) (N.to_nat (snd r - fst r + 1)).
-Definition read_all (p : N) (data : bytes) (rs : list rng) : bytes :=
+Definition read_all {A} (p : N) (data : list A) (rs : list rng) : list A :=
   concat (map (read_one p data) rs).
 
-Fixpoint filt (rs : list rng) (p : N) (data : bytes) : bytes :=
+Fixpoint filt {A} (rs : list rng) (p : N) (data : list A) : list A :=
   match data with
   | [] => []
   | b :: t => (if mem rs p then [b] else []) ++ filt rs (p + 1) t
   end.
 
-Lemma read_one_shift p x t r : p < fst r -> read_one p (x :: t) r = read_one (p + 1) t r.
+Lemma read_one_shift {A} p (x : A) t r : p < fst r -> read_one p (x :: t) r = read_one (p + 1) t r.
 Proof.
   intro H. unfold read_one.
   replace (N.to_nat (fst r - p)) with (S (N.to_nat (fst r - (p + 1)))) by lia.
   reflexivity.
 Qed.
 
-Lemma read_all_shift p x t rs ub : sd (p + 1) ub rs -> read_all p (x :: t) rs = read_all (p + 1) t rs.
+Lemma read_all_shift {A} p (x : A) t rs ub : sd (p + 1) ub rs -> read_all p (x :: t) rs = read_all (p + 1) t rs.
 Proof.
   revert p. unfold read_all.
   induction rs as [|[a b] rt IH]; intros p H; [reflexivity|].
@@ -121,17 +121,17 @@ Proof.
   rewrite (IH (b + 1)) by (auto; lia). lia.
 Qed.
 
-Lemma filt_ext rs rs' p data :
+Lemma filt_ext {A} rs rs' p (data : list A) :
   (forall q, p <= q -> mem rs q = mem rs' q) -> filt rs p data = filt rs' p data.
 Proof.
   revert p. induction data as [|x t IH]; intros p H; [reflexivity|].
   cbn [filt]. rewrite (H p) by lia. f_equal. apply IH. intros q Hq. apply H. lia.
 Qed.
 
-Lemma filt_nil p data : filt [] p data = [].
+Lemma filt_nil {A} p (data : list A) : filt [] p data = [].
 Proof. revert p. induction data as [|x t IH]; intro p; [reflexivity|]. cbn [filt]. rewrite mem_nil. apply IH. Qed.
 
-Lemma read_filt data : forall p rs ub,
+Lemma read_filt {A} (data : list A) : forall p rs ub,
   sd p ub rs -> ub <= p + len data -> read_all p data rs = filt rs p data.
 Proof.
   induction data as [|x t IH]; intros p rs ub Hsd Hub.
